@@ -65,6 +65,14 @@ theorem Good.setWeak {s : S} (g : Good s) {o : Nat} {w : Option Nat} (ho : o < s
   · intro l c hl hc
     rw [kind_setWeak] at hl ⊢; rw [items_setWeak] at hc; exact g.typed.items l c hl hc
 
+/-- the caller reads a hook on an object he holds: its cache gains a name (any object, any names) -/
+theorem Good.setCache {s : S} (g : Good s) {o : Nat} {c : List Nat} (ho : o < s.h.next) : Good (s.setCache o c) := by
+  refine ⟨g.wf.setCache ho, ?_, ?_⟩
+  · intro x f v hf hg
+    rw [getF_setCache] at hg; rw [kind_setCache]; exact g.typed.own x f v hf hg
+  · intro l x hl hc
+    rw [kind_setCache] at hl ⊢; rw [items_setCache] at hc; exact g.typed.items l x hl hc
+
 /-- kinds of objects no unit owns: the caller's and the returned profiles, in-profiles, values, grooves, templates -/
 def stableKind (k : Kind) : Prop :=
   k = .profile ∨ k = .inProfile ∨ k = .value ∨ k = .groove ∨ k = .rollTemplate ∨ k = .atom
